@@ -6,7 +6,7 @@ cd "$(dirname "$0")/.."
 SEEDS="$@"; [ -z "$SEEDS" ] && SEEDS=$(ls seeded | grep '^C[0-9][0-9]-[0-9]$' | sort)
 for s in $SEEDS; do
   p=${s%%-*}
-  case $s in C11-1|C11-2) p=C06;; esac
+  # (no override needed any more: every seeded property is claimed)
   T=$(mktemp -d /tmp/seedrun.XXXX); mkdir -p $T/repo; cp -r /repo/include $T/repo/
   if ! (cd $T/repo && patch -p1 -s < /verif/seeded/$s/patch.diff >/dev/null 2>&1); then echo "$s patch-does-not-apply"; rm -rf $T; continue; fi
   out=$(VERIF_REPO=$T/repo python3 tools/runner.py $p --tier ${TIER:-quick} -j ${J:-9} --noevidence 2>&1); rc=$?
